@@ -119,7 +119,11 @@ class Result:
 
 def run_driver(lines):
     """Feed lines to the compiled driver; returns the list of output lines."""
-    if not os.path.exists(common.DRIVER):
+    for _ in range(60):       # another check may be re-linking the driver right now
+        if os.path.exists(common.DRIVER):
+            break
+        time.sleep(2)
+    else:
         raise RuntimeError("driver not built: " + common.DRIVER)
     data = ("\n".join(lines) + "\n").encode()
     proc = subprocess.run([common.DRIVER], input=data, stdout=subprocess.PIPE,
